@@ -57,7 +57,7 @@ Definition is_odd_int (x : num) : bool :=
   | _ => false
   end.
 
-(* Some r: the result is decided by a special case; None: the generic path *)
+(* Some r: the result is decided by a special case of math.Pow; None: the generic path *)
 Definition go_pow_special (x y : num) : option num :=
   if is_zero y || num_eq x one then Some one
   else if num_eq y one then Some x
@@ -88,3 +88,10 @@ Definition go_pow_special (x y : num) : option num :=
         end
     end
   end.
+
+(* FoldBinaryOperator, case BinOpPow (after fix 9e1822e): JavaScript's NaN cases
+   first, then math.Pow *)
+Definition fold_pow (x y : num) : option num :=
+  if is_nan y || ((num_eq x one || num_eq x (num_neg one)) && match y with Inf _ => true | _ => false end)
+  then Some NaN
+  else go_pow_special x y.
